@@ -78,7 +78,7 @@ Qed.
 
 Lemma AtomicReloadId_tie : forall c o, gen_astep c o = Some (astep c o).
 Proof.
-  intros c [n|n|n|n| |]; Timeout 60 (run_gen; tie_close).
+  Timeout 60 intros c [n|n|n|n| |]; run_gen; tie_close.
 Qed.
 
 (* Every method of AtomicReloadId touches the shared cell by exactly one atomic operation: the
